@@ -1,16 +1,20 @@
 #!/venv/bin/python
-"""Confirm a seeded change and run the checks against it.
+"""Confirm a seeded change and run checks against it.
 
-usage: tools/seedcheck.py seeded/<id> [--props C01,C03] [--no-confirm] [--tier quick]
+usage: tools/seedcheck.py seeded/<id> [--props C01,C03] [--no-confirm] [--tier quick] [--inplace]
 
-1. confirm (scratch worktree under /tmp, removed afterwards): patch applies, the repository's
-   test suite still passes with it, the demonstration fails with it and passes without it;
-2. apply the patch to /repo, run the listed checks (default: meta.property), undo straight away;
-3. record what was run in seeded/<id>/meta.json ("ran").
+Default mode works in a scratch worktree of /repo under /tmp (removed afterwards): the patch is
+applied there, the repository's suite and the demonstration are run (with and without the patch),
+and the checks are run against that tree (VF_REPO) with their evidence/replay output redirected to
+a scratch directory (VF_OUT), so several seeded changes can be evaluated in parallel and nothing
+about a mutant ever lands in /verif/evidence. --inplace follows the plain protocol instead:
+`git -C /repo apply`, run the checks, `git -C /repo checkout -- .`.
+Results are recorded in seeded/<id>/meta.json under "ran".
 """
 import argparse
 import json
 import os
+import shutil
 import subprocess
 import sys
 import time
@@ -18,10 +22,30 @@ import time
 VERIF = os.path.dirname(os.path.dirname(os.path.abspath(__file__)))
 
 
-def sh(cmd, cwd=None, env=None, timeout=3600):
+def sh(cmd, cwd=None, env=None, timeout=7200):
     p = subprocess.run(cmd, shell=True, cwd=cwd, env=env, stdout=subprocess.PIPE, stderr=subprocess.STDOUT,
                        text=True, timeout=timeout)
     return p.returncode, p.stdout
+
+
+def run_checks(props, tier, seed, extra_env, ran):
+    for p in props:
+        t0 = time.time()
+        env = dict(os.environ, VERIF_SEED=str(seed), **extra_env)
+        rc, out = sh(f"./check {p} --tier {tier}", cwd=VERIF, env=env)
+        lines = out.splitlines()
+        viol = [l for l in lines if l.startswith("VIOLATION")]
+        detail = ""
+        for i, l in enumerate(lines):
+            if l.startswith("VIOLATION") and i + 1 < len(lines):
+                detail = lines[i + 1].strip()[:300]
+                break
+        herr = [l for l in lines if "HARNESS-ERROR" in l][:1]
+        ran.setdefault("checks", {})[p] = {"tier": tier, "seed": int(seed), "exit": rc,
+                                           "violations": len(viol), "first": detail or (herr[0][:300] if herr else ""),
+                                           "wall_s": round(time.time() - t0, 1)}
+        print(f"{p}: exit={rc} violations={len(viol)} {(detail or (herr[0] if herr else ''))[:220]}")
+    return ran
 
 
 def main():
@@ -31,6 +55,7 @@ def main():
     ap.add_argument("--no-confirm", action="store_true")
     ap.add_argument("--tier", default="quick")
     ap.add_argument("--seed", default="1")
+    ap.add_argument("--inplace", action="store_true")
     a = ap.parse_args()
     d = os.path.abspath(a.dir)
     meta_p = os.path.join(d, "meta.json")
@@ -38,72 +63,57 @@ def main():
     patch = os.path.join(d, "patch.diff")
     demo = os.path.join(d, "demo.py")
     ran = meta.setdefault("ran", {})
-    rc, out = sh("git status --short", cwd="/repo")
-    if out.strip():
-        print("refusing: /repo has uncommitted changes:\n" + out)
-        return 2
-    if not a.no_confirm:
-        wt = f"/tmp/wt/verify-{os.path.basename(d)}-{os.getpid()}"
-        sh(f"git -C /repo worktree add -q {wt} HEAD")
-        try:
-            env = dict(os.environ, PYTHONPATH=f"{wt}:/tmp/mdeps")
-            rc0, o0 = sh(f"/venv/bin/python {demo}", cwd=wt, env=env, timeout=600)
-            rc, o = sh(f"git apply {patch}", cwd=wt)
-            if rc != 0:
-                print("patch does not apply:", o)
-                ran["confirm"] = {"applies": False}
-                json.dump(meta, open(meta_p, "w"), indent=1)
-                return 2
-            rct, ot = sh("/venv/bin/python -m pytest -q -p no:cacheprovider --timeout=900 -n 8 2>&1 | tail -3",
+    props = (a.props.split(",") if a.props else [meta["property"]])
+    tag = f"{os.path.basename(d)}-{os.getpid()}"
+    wt = f"/tmp/wt/run-{tag}"
+    out = f"/tmp/vfout-{tag}"
+    sh(f"git -C /repo worktree add -q {wt} HEAD")
+    try:
+        env = dict(os.environ, PYTHONPATH=f"{wt}:/tmp/mdeps")
+        if not a.no_confirm:
+            rc0, o0 = sh(f"/venv/bin/python {demo}", cwd=wt, env=env, timeout=900)
+        rc, o = sh(f"git apply {patch}", cwd=wt)
+        if rc != 0:
+            print("patch does not apply:", o)
+            ran["confirm"] = {"applies": False}
+            json.dump(meta, open(meta_p, "w"), indent=1)
+            return 2
+        if not a.no_confirm:
+            rct, ot = sh("/venv/bin/python -m pytest -q -p no:cacheprovider --timeout=900 -n 4 2>&1 | tail -3",
                          cwd=wt, env=env)
-            rc1, o1 = sh(f"/venv/bin/python {demo}", cwd=wt, env=env, timeout=600)
+            rc1, o1 = sh(f"/venv/bin/python {demo}", cwd=wt, env=env, timeout=900)
             ran["confirm"] = {
                 "applies": True,
                 "suite_with_patch": ot.strip().splitlines()[-1] if ot.strip() else "",
+                "suite_note": "run with numpy importable, hence more tests than the 578 of the baseline environment",
                 "demo_exit_without_patch": rc0,
                 "demo_exit_with_patch": rc1,
-                "demo_output_with_patch": o1.strip()[-400:],
+                "demo_output_with_patch": o1.strip()[-300:],
             }
-            print("confirm:", json.dumps(ran["confirm"])[:600])
-        finally:
-            sh(f"git -C /repo worktree remove --force {wt}")
-    props = (a.props.split(",") if a.props else [meta["property"]])
-    # evidence written while a mutant is applied says nothing about the real tree: keep the real one
-    saved = {}
-    for p in props:
-        ep = os.path.join(VERIF, "evidence", f"{p}.json")
-        if os.path.exists(ep):
-            saved[ep] = open(ep).read()
-    sh(f"git -C /repo apply {patch}")
-    try:
-        for p in props:
-            t0 = time.time()
-            env = dict(os.environ, VERIF_SEED=a.seed)
-            rc, out = sh(f"./check {p} --tier {a.tier}", cwd=VERIF, env=env, timeout=7200)
-            viol = [l for l in out.splitlines() if l.startswith("VIOLATION")]
-            detail = ""
-            for i, l in enumerate(out.splitlines()):
-                if l.startswith("VIOLATION") and i + 1 < len(out.splitlines()):
-                    detail = out.splitlines()[i + 1].strip()[:300]
-                    break
-            ran.setdefault("checks", {})[p] = {"tier": a.tier, "seed": int(a.seed), "exit": rc,
-                                               "violations": len(viol), "first": detail,
-                                               "wall_s": round(time.time() - t0, 1)}
-            print(f"{p}: exit={rc} violations={len(viol)} {detail[:200]}")
-            # replay files produced against a mutant are not evidence about the real tree
-            for l in viol:
-                rp = l.split("replay=")[-1].strip()
-                fp = os.path.join(VERIF, rp)
-                if os.path.exists(fp) and "/regress/" not in fp and "/known/" not in fp:
-                    os.remove(fp)
+            print("confirm:", json.dumps({k: v for k, v in ran["confirm"].items() if k != "demo_output_with_patch"}))
+        if a.inplace:
+            st = sh("git status --short", cwd="/repo")[1].strip()
+            if st:
+                print("refusing --inplace: /repo not clean")
+                return 2
+            saved = {}
+            for p in props:
+                ep = os.path.join(VERIF, "evidence", f"{p}.json")
+                if os.path.exists(ep):
+                    saved[ep] = open(ep).read()
+            sh(f"git -C /repo apply {patch}")
+            try:
+                run_checks(props, a.tier, a.seed, {"VF_OUT": out}, ran)
+            finally:
+                sh("git -C /repo checkout -- .")
+            ran["how"] = "git -C /repo apply; ./check; git -C /repo checkout -- ."
+        else:
+            run_checks(props, a.tier, a.seed, {"VF_REPO": wt, "VF_OUT": out}, ran)
+            ran["how"] = "scratch worktree of /repo with the patch applied, VF_REPO=<worktree> ./check <id>"
     finally:
-        sh("git -C /repo checkout -- .")
-        for ep, body in saved.items():
-            open(ep, "w").write(body)
+        sh(f"git -C /repo worktree remove --force {wt}")
+        shutil.rmtree(out, ignore_errors=True)
     json.dump(meta, open(meta_p, "w"), indent=1)
-    rc, out = sh("git status --short", cwd="/repo")
-    if out.strip():
-        print("WARNING: /repo not clean:", out)
     return 0
 
 
